@@ -113,12 +113,16 @@ def _body(si, mask, sepi):
     for i in range(len(idx) - 1):
         check(idx[i + 1][0] == idx[i][1] + 1, f'pairs are not consecutive: {idx}')
     check(idx[-1][1] == doc.measures_count(), f'last pair {idx[-1]} does not end at measures_count() = {doc.measures_count()}')
+    M = len(rm.measure_starts(sc))
+    check(idx[-1][1] == M, f'last pair {idx[-1]} does not end at the number of measures of the joined score ({M} by the text-level model)')
     for i, (lo, hi) in enumerate(idx):
-        check(lo <= hi or not [ln for ln in groups[i] if ln.kind == 'data'],
-              f'pair {i} = {(lo, hi)} is empty but fragment {i} has data lines')
-        if lo > hi:
-            continue
-        out = kp.dumps(doc, from_measure=lo, to_measure=hi)
+        # every fragment holds a measure of its own (the first by assumption, the others start with a barline line)
+        # (kernpy reports the first fragment as starting at 0, which its exporter reads as "from the start")
+        check((0 if i == 0 else 1) <= lo <= hi, f'pair {i} = {(lo, hi)} of {idx} does not address a measure range; fragments {texts}')
+        try:
+            out = kp.dumps(doc, from_measure=lo, to_measure=hi)
+        except Exception as e:
+            check(False, f'pair {i} = {(lo, hi)} of {idx} cannot be exported: {type(e).__name__}: {e}; fragments {texts}')
         got = rm.data_lines(rm.parse(out))
         exp = [ln.cells for ln in groups[i] if ln.kind == 'data']
         check(got == exp, f'pair {i} = {(lo, hi)} of {idx} exports data lines {got}, fragment {i} has {exp}; fragments {texts}')
